@@ -270,6 +270,13 @@ example : (run Quirks.none init [.launch 0 2 2 none 0, .event 0 1 .goesOn, .laun
     [.launched 0, .progress 0 1, .launched 1, .progress 1 0, .progress 0 0, .failAttempt 0 (.plain 1), .endExecution false,
      .drop 1 1, .discard] := by decide
 
+/-- the last result completes the join of the nested attempt 1, whose state then fails (its ResultPath, say) and is not
+handled: the enclosing attempt 0 fails with that error, is retried, and its other branch is cancelled -/
+example : (run Quirks.none init [.launch 0 2 2 none 0, .event 0 0 .arm, .event 0 1 .goesOn, .launch 1 1 1 (some (0, 1)) 0,
+    .event 1 0 (.doneFail 4 (.plain 3) [.uncaught, .retried])]).2 =
+    [.launched 0, .progress 0 0, .progress 0 1, .launched 1, .progress 1 0, .joinFailed 1 (.plain 3), .failAttempt 0 (.plain 3),
+     .retry 0 1, .cancel 0 0] := by decide
+
 end FanProto
 
 end Asl.C06
